@@ -66,4 +66,13 @@ m = {
 with open(os.path.join(HERE, "MANIFEST.json"), "w") as f:
     json.dump(m, f, indent=1)
     f.write("\n")
+# known findings: one committed file, assembled from known_findings.d/*.json fragments
+kf = {"findings": [], "fixed": []}
+for p in sorted(glob.glob(os.path.join(HERE, "known_findings.d", "*.json"))):
+    d = json.load(open(p))
+    kf["findings"] += d.get("findings", [])
+    kf["fixed"] += d.get("fixed", [])
+with open(os.path.join(HERE, "known_findings.json"), "w") as f:
+    json.dump(kf, f, indent=1)
+    f.write("\n")
 print(f"MANIFEST.json: {len(checks)} checks, {len(not_app)} not applicable")
